@@ -63,6 +63,7 @@ def main(argv=None):
     m_results = []
     violations = []      # (label, replay_path)
     known_lines = []
+    known_hits = {}
     inconclusive = []
 
     runner = None
@@ -84,9 +85,12 @@ def main(argv=None):
                 elif r.status == "fail":
                     kf = known.get(q.known_id) if q.known_id else None
                     if kf is not None:
-                        labels = sorted(set(d for d, _ in r.failed_checks))
-                        known_lines.append(f"KNOWN-FINDING: property={pid} {kf.key} {kf.text} [harness {q.name}: {', '.join(labels)}]")
-                        continue
+                        # the finding covers only the failure it describes: any other failed check of this harness is still a violation
+                        other = [(d, l) for (d, l) in r.failed_checks if q.known_where and not any(w in f"{d} @ {l}" for w in q.known_where)]
+                        if not other:
+                            known_hits.setdefault(kf.key, (kf, []))[1].append(q.name)
+                            continue
+                        r.failed_checks = other
                     rep = runner.replay(r)
                     r.replay = rep
                     if rep.get("reproduced"):
@@ -117,6 +121,8 @@ def main(argv=None):
                             pass
             runner.close()
 
+    for key, (kf, names) in known_hits.items():
+        known_lines.append(f"KNOWN-FINDING: property={pid} {kf.key} {kf.text} [still reproduced by: {', '.join(sorted(names))}]")
     wall = time.time() - t0
     extra = dict(spec)
     extra["known_findings_reported"] = known_lines
